@@ -10,10 +10,13 @@
 (*                                                                         *)
 (* variables  ga[p]  grain of each peak (-1 none; accepted grains are       *)
 (*                   numbered from 1), ubis (accepted candidates, in order),*)
-(*            hits (stack of <<i,j>>), pairs (ring pairs still to try),     *)
+(*            hits (the hit list of the current pair, as a set: the order   *)
+(*            in which find() produced it is any order, so any element may  *)
+(*            be popped next; `top` is the hit being examined),             *)
+(*            pairs (ring pairs still to try),                              *)
 (*            cur (ring pair being scored or <<>>), ng (grains accepted in  *)
 (*            the current scorethem call)                                   *)
-(* actions    Find (hit list from unassigned peaks of the two rings),       *)
+(* actions    Find (hit list from unassigned peaks of the two rings), PopHit,*)
 (*            PopSkip (a peak already assigned, or i = j), PopLow (score    *)
 (*            <= minpks), PopReject (not unique enough), PopAccept,         *)
 (*            EndScore (hits exhausted or ng = max_grains), NextPair        *)
@@ -28,7 +31,9 @@
 (***************************************************************************)
 EXTENDS Integers, Sequences, FiniteSets, TLC
 
-CONSTANTS NP,          \* peaks 1..NP
+CONSTANTS NOISY,       \* FALSE: ideal instance (Completeness asserted); TRUE: adds a spurious high-score candidate
+          PAIRS,       \* the ring pairs score_all_pairs will try (cfg: PAIRS <- PAIRS_all / PAIRS_cross)
+          NP,          \* peaks 1..NP
           NR,          \* rings 1..NR
           NC,          \* candidates 1..NC
           MINPKS, MAXGRAINS,
@@ -37,42 +42,55 @@ CONSTANTS NP,          \* peaks 1..NP
 Peaks == 1..NP
 \* ---- the abstract instance (defined here because cfg files cannot hold functions) --------------
 \* ring of each peak, candidate proposed by a pair, score and indexed set of each candidate, truth
-Ring == <<1, 2, 1, 2, 1, 2>>
-\* two true grains: A indexes {1,2,5}, B indexes {3,4,6}; a spurious candidate C indexes {1,4}
-Idx == << {1, 2, 5}, {3, 4, 6}, {1, 4} >>
-Score == << 3, 3, 2 >>
-True_ == << TRUE, TRUE, FALSE >>
-Cand(i, j) == IF {i, j} \subseteq Idx[1] THEN 1 ELSE IF {i, j} \subseteq Idx[2] THEN 2
-              ELSE IF {i, j} \subseteq Idx[3] THEN 3 ELSE 0
-ASSUME NP = 6 /\ NR = 2 /\ NC = 3
+Ring == <<1, 2, 1, 2, 1, 2, 1, 2>>
+\* two true grains: A indexes {1,2,5}, B indexes {3,4,6}.  Candidate 3 is A again, reached from another
+\* peak pair (a symmetry-equivalent orientation: same lattice, Class 1); candidate 4 is spurious: {1,4}, low score;
+\* candidate 5 (NOISY only) comes from the stray peaks 7,8 and also indexes A's peaks: accepted if tried first,
+\* rejected as not unique enough once A holds its peaks
+Idx == << {1, 2, 5}, {3, 4, 6}, {1, 2, 5}, {1, 4}, {7, 8, 1, 2, 5} >>
+Score == << 3, 3, 3, 2, 5 >>
+True_ == << TRUE, TRUE, TRUE, FALSE, FALSE >>
+Class == << 1, 2, 1, 3, 4 >>
+Cand(i, j) == IF {i, j} = {7, 8} THEN (IF NOISY THEN 5 ELSE 0)
+              ELSE IF {i, j} \subseteq Idx[1] THEN (IF 5 \in {i, j} THEN 3 ELSE 1)
+              ELSE IF {i, j} \subseteq Idx[2] THEN 2
+              ELSE IF {i, j} \subseteq Idx[4] THEN 4 ELSE 0
+ASSUME NP = 8 /\ NR = 2 /\ NC = 5
 
-VARIABLES ga, ubis, hits, pairs, cur, ng
-vars == <<ga, ubis, hits, pairs, cur, ng>>
+VARIABLES ga, ubis, hits, top, pairs, cur, ng
+vars == <<ga, ubis, hits, top, pairs, cur, ng>>
 
-AllPairs == {<<r1, r2>> : r1 \in 1..NR, r2 \in 1..NR}
+PAIRS_all == {<<r1, r2>> : r1 \in 1..NR, r2 \in 1..NR}
+PAIRS_cross == {<<1, 2>>, <<2, 1>>}
+AllPairs == PAIRS
 Init == /\ ga = [p \in Peaks |-> -1]
-        /\ ubis = <<>> /\ hits = <<>>
+        /\ ubis = <<>> /\ hits = {} /\ top = <<>>
         /\ pairs = AllPairs /\ cur = <<>> /\ ng = 0
 
 \* find(): any order of the hits between unassigned peaks of the two rings
-HitSet(r1, r2) == {<<i, j>> \in Peaks \X Peaks : Ring[i] = r1 /\ Ring[j] = r2 /\ ga[i] = -1 /\ ga[j] = -1}
-Orderings(S) == {q \in [1..Cardinality(S) -> S] : \A a, b \in 1..Cardinality(S) : a # b => q[a] # q[b]}
+\* the ideal instance uses peaks 1..6 (grains A, B); the noisy one peaks {1,2,5,7,8} (grain A + two strays)
+Active == IF NOISY THEN {1, 2, 5, 7, 8} ELSE 1..6
+HitSet(r1, r2) == {<<i, j>> \in Active \X Active : Ring[i] = r1 /\ Ring[j] = r2 /\ ga[i] = -1 /\ ga[j] = -1}
 Find == /\ cur = <<>> /\ pairs # {}
         /\ \E pr \in pairs :
              /\ cur' = pr /\ pairs' = pairs \ {pr}
-             /\ \E q \in Orderings(HitSet(pr[1], pr[2])) : hits' = q
-        /\ ng' = 0 /\ UNCHANGED <<ga, ubis>>
+             /\ hits' = HitSet(pr[1], pr[2])
+        /\ ng' = 0 /\ UNCHANGED <<ga, ubis, top>>
 
-Scoring == cur # <<>> /\ Len(hits) > 0 /\ ng < MAXGRAINS
-Top == hits[Len(hits)]
-Pop == hits' = SubSeq(hits, 1, Len(hits) - 1)
+\* diff, i, j = self.hits.pop()
+PopHit == /\ cur # <<>> /\ top = <<>> /\ hits # {} /\ ng < MAXGRAINS
+          /\ \E h \in hits : top' = h /\ hits' = hits \ {h}
+          /\ UNCHANGED <<ga, ubis, pairs, cur, ng>>
+Scoring == cur # <<>> /\ top # <<>>
+Top == top
+Pop == top' = <<>> /\ UNCHANGED hits
 Unassigned(c) == Cardinality({p \in Idx[c] : ga[p] = -1})
 UniqueEnough(c) == Unassigned(c) * UNIQ_DEN > UNIQ_NUM * Cardinality(Idx[c])
 
 PopSkip == /\ Scoring /\ (ga[Top[1]] > -1 \/ ga[Top[2]] > -1 \/ Top[1] = Top[2])
            /\ Pop /\ UNCHANGED <<ga, ubis, pairs, cur, ng>>
 Live == Scoring /\ ga[Top[1]] = -1 /\ ga[Top[2]] = -1 /\ Top[1] # Top[2]
-PopLow == /\ Live /\ (Cand(Top[1], Top[2]) = 0 \/ Score[Cand(Top[1], Top[2])] <= MINPKS)
+PopLow == /\ Live /\ (IF Cand(Top[1], Top[2]) = 0 THEN TRUE ELSE Score[Cand(Top[1], Top[2])] <= MINPKS)
           /\ Pop /\ UNCHANGED <<ga, ubis, pairs, cur, ng>>
 PopReject == /\ Live /\ Cand(Top[1], Top[2]) # 0
              /\ LET c == Cand(Top[1], Top[2]) IN Score[c] > MINPKS /\ ~UniqueEnough(c)
@@ -83,24 +101,25 @@ PopAccept == /\ Live /\ Cand(Top[1], Top[2]) # 0
                    /\ ga' = [p \in Peaks |-> IF p \in Idx[c] THEN Len(ubis) + 1 ELSE ga[p]]
                    /\ ubis' = Append(ubis, c)
              /\ ng' = ng + 1 /\ Pop /\ UNCHANGED <<pairs, cur>>
-EndScore == /\ cur # <<>> /\ (Len(hits) = 0 \/ ng >= MAXGRAINS)
-            /\ cur' = <<>> /\ hits' = <<>> /\ UNCHANGED <<ga, ubis, pairs, ng>>
+EndScore == /\ cur # <<>> /\ top = <<>> /\ (hits = {} \/ ng >= MAXGRAINS)
+            /\ cur' = <<>> /\ hits' = {} /\ UNCHANGED <<ga, ubis, top, pairs, ng>>
 
-Next == Find \/ PopSkip \/ PopLow \/ PopReject \/ PopAccept \/ EndScore
+Next == Find \/ PopHit \/ PopSkip \/ PopLow \/ PopReject \/ PopAccept \/ EndScore
 Spec == Init /\ [][Next]_vars /\ WF_vars(Next)
 
 \* ---- properties --------------------------------------------------------------------------------
 GaRange == \A p \in Peaks : ga[p] = -1 \/ ga[p] \in 1..Len(ubis)
 AcceptedScore == \A k \in 1..Len(ubis) : Score[ubis[k]] > MINPKS
 GrainCap == ng <= MAXGRAINS
-NoRepeat == \A a, b \in 1..Len(ubis) : a # b => ubis[a] # ubis[b]
+\* no two accepted orientations describe the same lattice
+NoRepeat == \A a, b \in 1..Len(ubis) : a # b => Class[ubis[a]] # Class[ubis[b]]
 \* a later grain may take over peaks, but every peak of an accepted grain stays with some grain
 OwnPeaksKept == \A k \in 1..Len(ubis) : \A p \in Idx[ubis[k]] : ga[p] > -1
 Finished == pairs = {} /\ cur = <<>>
 Termination == <>Finished
 \* ideal data: a true grain with a hit made of two peaks that only it indexes is found
-Exclusive(c) == {p \in Idx[c] : \A d \in 1..NC : (d # c /\ True_[d]) => p \notin Idx[d]}
-Completeness == Finished =>
+Exclusive(c) == {p \in Idx[c] : \A d \in 1..NC : (Class[d] # Class[c] /\ True_[d]) => p \notin Idx[d]}
+Completeness == (Finished /\ ~NOISY) =>
    \A c \in 1..NC : (True_[c] /\ Score[c] > MINPKS /\ \E i, j \in Exclusive(c) : i # j /\ Ring[i] # Ring[j])
-                     => \E k \in 1..Len(ubis) : ubis[k] = c
+                     => \E k \in 1..Len(ubis) : Class[ubis[k]] = Class[c]
 =============================================================================
